@@ -275,8 +275,18 @@ func IsEntityEqual(prevJson []byte, thisJson []byte, prevEntity *Entity, thisEnt
 		return false
 	}
 
-	// assuming that the length check is enough to determine that refs and props have the same keys
-	// it is theoretically possible to have the same json length with different keys ... consider matching keys in both objects as well.
+	// the deleted flag is part of the entity state. A deleted and a live version can have the same
+	// json length when the other fields differ by the length of the deleted attribute.
+	if prevEntity.IsDeleted != thisEntity.IsDeleted {
+		return false
+	}
+
+	// same json length does not imply the same keys. with equally sized maps, finding every previous key
+	// in the new entity (below) means that both have the same key sets.
+	if len(prevEntity.References) != len(thisEntity.References) || len(prevEntity.Properties) != len(thisEntity.Properties) {
+		return false
+	}
+
 	for i, v := range prevEntity.References {
 		thisVal, ok := thisEntity.References[i]
 		if !ok {
